@@ -312,6 +312,121 @@ def to_expr(stmts, env=None):
     raise Unsupported('statement %s' % type(s).__name__)
 
 
+# ----------------------------------------------------------------------------------------------- condition locals
+_PURE_CALLS = {'range', 'len', 'isinstance', 'bool', 'int', 'min', 'max', 'abs', 'tuple'}
+
+
+def _pure(e):
+    for x in ast.walk(e):
+        if isinstance(x, ast.Call) and not (isinstance(x.func, ast.Name) and x.func.id in _PURE_CALLS) and not (
+                isinstance(x.func, ast.Attribute) and isinstance(x.func.value, ast.Name) and x.func.value.id == 'time'
+                and x.func.attr in ('time', 'monotonic') and not x.args):
+            return False
+        if isinstance(x, (ast.Lambda, ast.ListComp, ast.SetComp, ast.DictComp, ast.GeneratorExp, ast.Await, ast.Yield,
+                          ast.YieldFrom, ast.NamedExpr, ast.JoinedStr)):
+            return False
+    return True
+
+
+def _mentions(e):
+    out = set()
+    for x in ast.walk(e):
+        if isinstance(x, ast.Name):
+            out.add(x.id)
+        elif isinstance(x, ast.Attribute):
+            t = ast.unparse(x)
+            out.add(t)
+    return out
+
+
+def _may_write(st, mentioned):
+    """the statement may change a value the expression depends on: a store to a mentioned name / attribute chain (or a
+    prefix of one), or any call that is not a log call"""
+    for x in ast.walk(st):
+        if isinstance(x, (ast.Name, ast.Attribute)) and isinstance(getattr(x, 'ctx', None), (ast.Store, ast.Del)):
+            t = ast.unparse(x)
+            if any(m == t or m.startswith(t + '.') or t.startswith(m + '.') for m in mentioned):
+                return True
+        if isinstance(x, ast.Call):
+            f = x.func
+            name = f.attr if isinstance(f, ast.Attribute) else (f.id if isinstance(f, ast.Name) else '')
+            if not (name.startswith('log_') or name in ('debug', 'info', 'warning', 'error') or name in _PURE_CALLS
+                    or name in ('format', 'hex', 'time')):
+                return True
+    return False
+
+
+def propagate_condition_locals(func):
+    """`flag = <pure test>` followed by `if flag:` / `if not flag: return` ... : the test is substituted into the conditions
+    (and the local disappears) when the flag has one definition, is only used in tests of the following sibling
+    statements, and nothing it depends on can change in between.  Returns the number of locals substituted."""
+    count = 0
+    stores = {}
+    for x in walk_no_nested(func):
+        if isinstance(x, ast.Name) and isinstance(x.ctx, (ast.Store, ast.Del)):
+            stores[x.id] = stores.get(x.id, 0) + 1
+    params = {a.arg for a in func.args.posonlyargs + func.args.args + func.args.kwonlyargs}
+
+    def blocks(node):
+        for field in ('body', 'orelse', 'finalbody'):
+            b = getattr(node, field, None)
+            if isinstance(b, list) and b and isinstance(b[0], ast.stmt):
+                yield b
+        if isinstance(node, ast.Try):
+            for h in node.handlers:
+                yield h.body
+
+    def visit(node):
+        nonlocal count
+        for b in blocks(node):
+            i = 0
+            while i < len(b):
+                st = b[i]
+                if (isinstance(st, ast.Assign) and len(st.targets) == 1 and isinstance(st.targets[0], ast.Name)
+                        and stores.get(st.targets[0].id) == 1 and st.targets[0].id not in params and _pure(st.value)
+                        and isinstance(st.value, (ast.Compare, ast.BoolOp, ast.UnaryOp))):
+                    name = st.targets[0].id
+                    total = sum(1 for x in walk_no_nested(func) if isinstance(x, ast.Name) and x.id == name
+                                and isinstance(x.ctx, ast.Load))
+                    mentioned = _mentions(st.value)
+                    sites = []
+                    ok = True
+                    for later in b[i + 1:]:
+                        uses_here = [x for x in ast.walk(later) if isinstance(x, ast.Name) and x.id == name
+                                     and isinstance(x.ctx, ast.Load)]
+                        if uses_here:
+                            if not isinstance(later, ast.If):
+                                ok = False
+                                break
+                            in_test = [x for x in ast.walk(later.test) if isinstance(x, ast.Name) and x.id == name]
+                            if len(in_test) != len(uses_here):
+                                ok = False
+                                break
+                            sites.append(later)
+                            if len([1 for s_ in sites for x in ast.walk(s_.test) if isinstance(x, ast.Name) and x.id == name]) == total:
+                                break
+                            if not (_always_exits(later.body) and not later.orelse) and _may_write(later, mentioned):
+                                ok = False
+                                break
+                        elif _may_write(later, mentioned):
+                            ok = False
+                            break
+                    found = sum(1 for s_ in sites for x in ast.walk(s_.test) if isinstance(x, ast.Name) and x.id == name)
+                    if ok and sites and found == total:
+                        for s_ in sites:
+                            s_.test = _Subst({name: st.value}, {}).visit(s_.test)
+                            ast.fix_missing_locations(s_)
+                        del b[i]
+                        count += 1
+                        continue
+                i += 1
+            for st in b:
+                if not isinstance(st, (ast.FunctionDef, ast.AsyncFunctionDef, ast.ClassDef)):
+                    visit(st)
+    visit(func)
+    return count
+
+
 # ----------------------------------------------------------------------------------------------- the pass
 class Inliner:
     def __init__(self, prog, resolver_factory, known=None, max_rounds=6):
@@ -607,7 +722,10 @@ class Inliner:
     def run(self):
         prog = self.prog
         cands = self.candidates()
+        self.report['condition_locals'] = {}
         if not cands:
+            self._condition_locals()
+            prog.reindex()
             return self.report
         self.report['helpers'] = sorted(cands)
         for _ in range(self.max_rounds):
@@ -647,8 +765,16 @@ class Inliner:
             if not any_change:
                 break
         self._drop_unreferenced(cands)
+        self._condition_locals()
         prog.reindex()
         return self.report
+
+    def _condition_locals(self):
+        for q, fi in self.prog.functions.items():
+            if isinstance(fi.node, ast.FunctionDef):
+                n = propagate_condition_locals(fi.node)
+                if n:
+                    self.report['condition_locals'][q] = n
 
     def _drop_unreferenced(self, cands):
         prog = self.prog
